@@ -295,7 +295,9 @@ def run_misc(ctx, c):
             n = 32 + 16 * (sec % 5)
             data = expand(c["seed"] + "%02x" % i, n)
             iv = expand(c["seed"] + "aa%02x" % i, 16)
-            for stp, one in (("beltSDEStepE", "beltSDEEncr"), ("beltSDEStepD", "beltSDEDecr")):
+            ED = (("beltSDEStepE", "beltSDEEncr"), ("beltSDEStepD", "beltSDEDecr"))
+            # which directions this sector is processed in, and in which order (runs of encryptions / decryptions only on one state)
+            for stp, one in (ED, ED[:1], ED[1:], ED[::-1])[(sec >> 4) % 4]:
                 if (sec >> 3) & 1:
                     S.reloc(); rel += 1
                 d = x.out(n)
@@ -320,11 +322,20 @@ def run_misc(ctx, c):
             f2 = x.buf(data); x.call("beltWBLStepE", f2, n, S2, ret="v")
             if fb.read() != f2.read():
                 raise Fail("WBL StepE #%d on a reused/relocated state differs from a fresh state (n=%d)" % (i, n))
+            if (sec >> 5) & 1:
+                continue        # no decryption in between: the next sector is encrypted right after this one on the same state
             if (sec >> 4) & 1:
                 S.reloc(); rel += 1
             x.call("beltWBLStepD", fb, n, S.b, ret="v")
             if fb.read() != data:
                 raise Fail("WBL StepD(StepE(x)) != x on a reused/relocated state (n=%d)" % n)
+            if (sec >> 2) & 1:
+                # two decryptions in a row as well
+                x.call("beltWBLStepD", fb, n, S.b, ret="v")
+                f3 = x.buf(data); x.call("beltWBLStepD", f3, n, S2, ret="v")
+                if fb.read() != f3.read():
+                    raise Fail("WBL StepD #%d repeated on a reused state differs from a fresh state (n=%d)" % (i, n))
+                continue
             # StepD2 on split buffers: buf1 = first n-16 octets, buf2 = last 16
             a = x.buf(f2.read()[:n - 16]); b = x.buf(f2.read()[n - 16:])
             x.call("beltWBLStepD2", a, b, n, S.b, ret="v")
@@ -379,7 +390,7 @@ def run_misc(ctx, c):
 
 S_MISC = st.fixed_dictionaries({
     "kind": st.sampled_from(["SDE", "WBL", "KRP", "FMT"]), "key": st.sampled_from([16, 24, 32]).flatmap(lambda k: st.binary(min_size=k, max_size=k)).map(bytes.hex),
-    "seed": st.binary(min_size=1, max_size=4).map(bytes.hex), "sectors": st.lists(st.integers(0, 63), min_size=1, max_size=5),
+    "seed": st.binary(min_size=1, max_size=4).map(bytes.hex), "sectors": st.lists(st.integers(0, 63), min_size=1, max_size=6),
     "mod": st.one_of(st.sampled_from([2, 3, 10, 16, 255, 256, 257, 1000, 49667, 65535, 65536]), st.integers(2, 65536)),
     "count": st.one_of(st.sampled_from([2, 3, 4, 5, 9, 10, 11, 20, 21, 50]), st.integers(2, 80))})
 
